@@ -798,6 +798,14 @@ class Exec:
             if isinstance(base, (SymV, StructV)):
                 return path.store(base.path, pl[2], pl[3], val)
             raise Unsupported("store through a reference to %r in %s" % (base, fn.name))
+        if pl[0] == "field" and pl[1][0] == "field":
+            root = pl
+            while root[0] == "field":
+                root = root[1]
+            if root[0] == "deref":
+                base = self.read_place(pl[1], env, fn)
+                if isinstance(base, SymV):
+                    return path.store(base.path, pl[2], pl[3], val)
         if pl[0] == "deref" and pl[1][0] == "local":
             ref = env.get(pl[1][1])
             loc = None
